@@ -8,6 +8,8 @@ N1  ``return next((e for x in D if c), default)``           ->  ``for x in D: if
 N2  a list comprehension that calls a helper which must be run in place (a private helper or local closure with
     statement effects / loops)                              ->  the accumulator loop it abbreviates
 N4  ``for x in X: acc.append(x)``                               ->  ``acc.extend(X)``
+N13 ``i = len(L); while i > 0: i -= 1; ... L[i] ...`` (and the forward form)  ->  ``for x in reversed(L)`` / ``for x in L``
+N12 ``yield from <pipeline>``                                      ->  ``for x in <pipeline>: yield x``
 N11 ``v = functools.reduce(f, X, init)``                          ->  ``v = init; for x in X: v = f(v, x)``
 N10 ``list(<map/filter/chain/generator pipeline that runs package code>)`` and loops over such pipelines  ->  the loop nest
 N9  ``it = iter(X); while (v := next(it, S)) is not S: body``   ->  ``for v in X: body`` (S a fresh ``object()``)
@@ -224,7 +226,7 @@ class _Ctx:
                 return self.block(chain)
             return [st]
         if isinstance(st, ast.While):
-            as_for = self._iterator_while(st)
+            as_for = self._iterator_while(st) or self._index_while(st)
             if as_for is not None:
                 return self.stmt(as_for)
             new = copy.copy(st)
@@ -247,6 +249,12 @@ class _Ctx:
                 hs.append(h2)
             new.handlers = hs
             return [new]
+        if isinstance(st, ast.Expr) and isinstance(st.value, ast.YieldFrom) and (self._is_pipeline(self._deref(st.value.value))
+                                                                              or isinstance(self._deref(st.value.value), ast.GeneratorExp)):
+            # N12: ``yield from <pipeline>`` hands on every element of the pipeline
+            nest = self._loops_for(st.value.value, lambda x: [ast.Expr(value=ast.Yield(value=x))], st)
+            if nest is not None:
+                return self.block(nest)
         if isinstance(st, (ast.Return, ast.Assign, ast.AnnAssign, ast.Expr, ast.AugAssign)):
             value = getattr(st, "value", None)
             if value is None:
@@ -450,6 +458,63 @@ class _Ctx:
                     ast.copy_location(m, st)
             ast.fix_missing_locations(n)
         return out
+
+    # -- N13 ------------------------------------------------------------------------------------------
+    def _index_while(self, st: ast.While) -> Optional[ast.For]:
+        """``i = len(L); while i > 0: i -= 1; body(L[i])``  ->  ``for x in reversed(L): body(x)``
+        ``i = 0; while i < len(L): body(L[i]); i += 1``      ->  ``for x in L: body(x)``   (i used only to index L; no continue in the 2nd form)"""
+        if st.orelse or self.root is None or not isinstance(st.test, ast.Compare) or len(st.test.ops) != 1 or not isinstance(st.test.left, ast.Name):
+            return None
+        i = st.test.left.id
+        binds = [n for n in ast.walk(self.root) if isinstance(n, (ast.Assign, ast.AnnAssign)) and n.value is not None and
+                 any(isinstance(t, ast.Name) and t.id == i for t in (n.targets if isinstance(n, ast.Assign) else [n.target]))]
+        augs = [n for n in ast.walk(self.root) if isinstance(n, ast.AugAssign) and isinstance(n.target, ast.Name) and n.target.id == i]
+        if len(binds) != 1 or len(augs) != 1 or binds[0].lineno > st.lineno:
+            return None
+        init, aug = binds[0].value, augs[0]
+        if not (isinstance(aug.value, ast.Constant) and aug.value.value == 1):
+            return None
+
+        def len_of(e):
+            if isinstance(e, ast.Call) and isinstance(e.func, ast.Name) and e.func.id == "len" and len(e.args) == 1 and isinstance(e.args[0], ast.Name):
+                return e.args[0].id
+            return None
+        backward = isinstance(st.test.ops[0], ast.Gt) and isinstance(st.test.comparators[0], ast.Constant) and st.test.comparators[0].value == 0 \
+            and len_of(init) is not None and isinstance(aug.op, ast.Sub) and st.body and st.body[0] is aug
+        forward = isinstance(st.test.ops[0], ast.Lt) and len_of(st.test.comparators[0]) is not None and isinstance(init, ast.Constant) and init.value == 0 \
+            and isinstance(aug.op, ast.Add) and st.body and st.body[-1] is aug and not any(isinstance(n, ast.Continue) for n in ast.walk(st))
+        if not (backward or forward):
+            return None
+        L = len_of(init) if backward else len_of(st.test.comparators[0])
+        rest = st.body[1:] if backward else st.body[:-1]
+        # i only indexes L; L itself is not rebound or mutated in the loop
+        for b in rest:
+            for n in ast.walk(b):
+                if isinstance(n, ast.Name) and n.id == i:
+                    par_ok = any(isinstance(p, ast.Subscript) and p.slice is n and isinstance(p.value, ast.Name) and p.value.id == L for p in ast.walk(b))
+                    if not par_ok:
+                        return None
+                if isinstance(n, ast.Name) and n.id == L and isinstance(n.ctx, ast.Store):
+                    return None
+        x = self.tmp()
+
+        def repl(node: ast.AST) -> ast.AST:
+            if isinstance(node, ast.Subscript) and isinstance(node.value, ast.Name) and node.value.id == L and isinstance(node.slice, ast.Name) and node.slice.id == i:
+                return ast.copy_location(ast.Name(id=x, ctx=ast.Load()), node)
+            new = copy.copy(node)
+            for field, val in ast.iter_fields(node):
+                if isinstance(val, ast.AST):
+                    setattr(new, field, repl(val))
+                elif isinstance(val, list):
+                    setattr(new, field, [repl(v) if isinstance(v, ast.AST) else v for v in val])
+            return new
+        it: ast.expr = ast.Name(id=L, ctx=ast.Load())
+        if backward:
+            it = ast.Call(func=ast.Name(id="reversed", ctx=ast.Load()), args=[it], keywords=[])
+        new = ast.For(target=ast.Name(id=x, ctx=ast.Store()), iter=it, body=[repl(b) for b in rest] or [ast.Pass()], orelse=[])
+        ast.copy_location(new, st)
+        ast.fix_missing_locations(new)
+        return new
 
     # -- N9 -------------------------------------------------------------------------------------------
     def _iterator_while(self, st: ast.While) -> Optional[ast.For]:
@@ -782,12 +847,39 @@ class _Ctx:
 
     # -- N1 -------------------------------------------------------------------------------------------
     def _next_form(self, v: ast.expr):
-        if isinstance(v, ast.Call) and isinstance(v.func, ast.Name) and v.func.id == "next" and len(v.args) == 2 and not v.keywords \
-                and isinstance(v.args[0], ast.GeneratorExp) and len(v.args[0].generators) == 1 and not v.args[0].generators[0].is_async:
-            return v.args[0], v.args[1]
+        if isinstance(v, ast.Call) and isinstance(v.func, ast.Name) and v.func.id == "next" and len(v.args) == 2 and not v.keywords:
+            src = self._deref(v.args[0])
+            if isinstance(src, ast.GeneratorExp) and len(src.generators) == 1 and not src.generators[0].is_async:
+                return src, v.args[1]
+            if self._is_pipeline(src):
+                return src, v.args[1]
         return None
 
-    def _desugar_next(self, st: ast.stmt, gen: ast.GeneratorExp, default: ast.expr) -> List[ast.stmt]:
+    def _desugar_next(self, st: ast.stmt, gen, default: ast.expr) -> List[ast.stmt]:
+        if not isinstance(gen, ast.GeneratorExp):
+            # next(filter(p, xs), d) / next(map(f, xs), d): first element of the pipeline
+            if isinstance(st, ast.Return):
+                nest = self._loops_for(gen, lambda x: [ast.Return(value=x)], st)
+                tail: List[ast.stmt] = [ast.Return(value=default)]
+                if nest is None:
+                    return [st]
+                out = nest + tail
+            else:
+                tg = st.targets if isinstance(st, ast.Assign) else [st.target]
+                nest = self._loops_for(gen, lambda x: [ast.Assign(targets=list(tg), value=x), ast.Break()], st)
+                if nest is None or len(nest) != 1 or not isinstance(nest[0], ast.For):
+                    return [st]
+                # only a single (non-nested) loop can carry the for/else default
+                if any(isinstance(n, ast.For) for b in nest[0].body for n in ast.walk(b)):
+                    return [st]
+                nest[0].orelse = [ast.Assign(targets=list(tg), value=default)]
+                out = nest
+            for n in out:
+                for m in ast.walk(n):
+                    if not hasattr(m, "lineno"):
+                        ast.copy_location(m, st)
+                ast.fix_missing_locations(n)
+            return out
         g = gen.generators[0]
         if isinstance(st, ast.Return):
             hit: List[ast.stmt] = [ast.Return(value=gen.elt)]
